@@ -242,3 +242,36 @@ func VerifHarness_C16_ManyDistinct() {
 	verifAssert(len(top) == n, "C16: top queries respect the limit")
 	verifReach("views")
 }
+
+// queries longer than any display width: stored as recorded, an immediate repeat still collapses
+func VerifHarness_C16_LongQueryRepeat() {
+	path := verifFSRoot() + "/state/history.json"
+	sh := NewSearchHistory(path, 3)
+	n := []int{255, 256, 257, 347, 1000}[verifIntRange("len", 0, 4)]
+	q := ""
+	for i := 0; i < n; i++ {
+		q += string(rune('a' + i%7))
+	}
+	if verifBool("nonASCII") {
+		q = "a"
+		for i := 0; i < 200; i++ {
+			q += "é"
+		}
+	}
+	sh.AddEntry("first", 1, "", time.Millisecond)
+	sh.AddEntry(q, 1, "", time.Millisecond)
+	sh.AddEntry(q, 2, "", time.Millisecond)
+	verifAssert(len(sh.Entries) == 2, "C16: an immediately repeated query updates the last entry instead of adding one")
+	verifAssert(sh.Entries[len(sh.Entries)-1].Query == q, "C16: the entry holds the query that was recorded")
+	if err := sh.Save(); err == nil {
+		back := NewSearchHistory(path, 3)
+		verifAssert(back.Load() == nil && len(back.Entries) == len(sh.Entries), "C16: saving and loading gives back the same entries (count)")
+		if len(back.Entries) == len(sh.Entries) {
+			for i := range sh.Entries {
+				verifAssert(back.Entries[i].Query == sh.Entries[i].Query, "C16: saving and loading gives back the same entries")
+			}
+		}
+		verifReach("roundtrip")
+	}
+	verifReach("stepped")
+}
